@@ -148,7 +148,14 @@ fn dump_body<'tcx>(tcx: TyCtxt<'tcx>, did: rustc_span::def_id::DefId, body: &Bod
             let cx = Cx { tcx, did };
             let span = tcx.def_span(did);
             let loc = sm.span_to_diagnostic_string(span);
-            let from_exp = span.from_expansion();
+            let mut from_exp = span.from_expansion();
+            if from_exp {
+                // functions written inside a local macro_rules! body are user code, not generated code
+                let ed = span.ctxt().outer_expn_data();
+                if let rustc_span::hygiene::ExpnKind::Macro(rustc_span::hygiene::MacroKind::Bang, _) = ed.kind {
+                    if let Some(md) = ed.macro_def_id { if md.is_local() { from_exp = false; } }
+                }
+            }
             if !*firstfn { out.push_str(",\n"); }
             *firstfn = false;
             let _ = write!(out, "{{\"path\":{},\"kind\":{},\"loc\":{},\"macro\":{},\"argc\":{},", esc(&path), esc(&format!("{:?}", kind)), esc(&loc), from_exp, body.arg_count);
